@@ -253,7 +253,7 @@ class GateAnalysis(taint.FnAnalysis):
                 for x in l[2]:
                     if x is None:
                         na.append(None)
-                    elif x[0] in ("p", "l", "bswap", "sub"):
+                    elif x[0] in ("p", "l", "bswap", "sub", "subp"):
                         na.append(dsc.subst_slice(x, args) or ("l", "?"))
                     else:
                         na.append(dsc.subst_value(x, args))
